@@ -1,2 +1,4 @@
 //! Independent reference implementations written from the RFCs.
+pub mod rdata;
 pub mod serial;
+pub mod wire;
